@@ -4,6 +4,8 @@
      pli/platform/avx2.rs  score_f32_avx2_permute, score_f32_avx2_gather,
                            Avx2::score_f32_rows_into{,_permute,_gather}
      pli/platform/sse2.rs  score_sse2, Sse2::score_rows_into
+     pli/platform/neon.rs  score_f32_neon, Neon::score_f32_rows_into (not compiled on x86:
+                           tied by the translator and the proofs only)
      pli/dispatch.rs       impl Score<f32, A, Lanes> for Pipeline<A, Dispatch>
 
    Registers are lists: a __m256i / __m128i is the list of its 32 / 16 bytes
@@ -14,7 +16,11 @@
    The AVX2 kernels are parameterised by the constants that the translator
    translate/score_avx2.py re-extracts from avx2.rs on every run (GenAvx2.v):
    the four byte-shuffle masks, the permute2f128 operands/immediates and the
-   store offsets.
+   store offsets.  The SSE2 and NEON kernels (same shape: widen 16 symbols to
+   4 x 4 lanes by byte interleaving with zero, compare-and-mask per symbol,
+   store 16 cells) are parameterised by the interleaving paths and the store
+   offsets that translate/score_lane4.py re-extracts from sse2.rs / neon.rs
+   (GenLane4.v).
 
    Result codes besides those of ScoreModel.v:
      Panic 30  pssm.rows() - 1 underflows (M = 0; in release the comparison
@@ -93,6 +99,24 @@ Record avx2_consts := mkAvx2Consts {
   ac_store : list nat              (* r_k is stored at rowptr.add(off_k) *)
 }.
 
+(* constants of one SSE2 / NEON f32 kernel: per accumulator the path of halves
+   (false = low, true = high) of the byte interleavings with zero from the loaded
+   row to the register compared for it, and the element offset of its store *)
+Record lane4_consts := mkLane4 {
+  l4_paths : list (list bool);
+  l4_store : list nat
+}.
+
+(* _mm_unpack{lo,hi}_epi8(x, zero) / vzipq_u8(x, 0).{0,1}, applied along a path; [z] is
+   the zero register *)
+Fixpoint zip_path {A} (z : list A) (p : list bool) (x : list A) : list A :=
+  match p with
+  | [] => x
+  | h :: t =>
+      zip_path z t (if h then interleave (skipn 8 x) (skipn 8 z)
+                    else interleave (firstn 8 x) (firstn 8 z))
+  end.
+
 (* the wrapper guards shared by Avx2::score_f32_rows_into_{permute,gather} and
    Sse2::score_rows_into *)
 Definition simd_guard {T} (zero : T) (C M : nat) (q : sseq) (a b : nat) (old : sscores T)
@@ -101,6 +125,17 @@ Definition simd_guard {T} (zero : T) (C M : nat) (q : sseq) (a b : nat) (old : s
   else if sq_wrap q <? M - 1 then Panic 31
   else if (sq_len q <? M) || negb (a <? b) then Ok (sc_resize zero C old 0 0)
   else if length (sq_mat q) <? b + M - 1 then Panic 32
+  else
+    let sc := sc_resize zero C old (b - a) ((sq_len q + 1) - M) in
+    rbind (kernel (sc_mat sc)) (fun m => Ok (mkScores m (sc_max sc))).
+
+(* Neon::score_f32_rows_into: the same guards WITHOUT the row-range assertion (the
+   repair of the SIMD wrappers was made in avx2.rs and sse2.rs only) *)
+Definition neon_guard {T} (zero : T) (C M : nat) (q : sseq) (a b : nat) (old : sscores T)
+           (kernel : list (list T) -> res (list (list T))) : res (sscores T) :=
+  if M =? 0 then Panic 30
+  else if sq_wrap q <? M - 1 then Panic 31
+  else if (sq_len q <? M) || negb (a <? b) then Ok (sc_resize zero C old 0 0)
   else
     let sc := sc_resize zero C old (b - a) ((sq_len q + 1) - M) in
     rbind (kernel (sc_mat sc)) (fun m => Ok (mkScores m (sc_max sc))).
@@ -197,16 +232,13 @@ Section Simd.
     if K <=? 8 then avx2_permute_rows_into csp pssm pads q a b old
     else avx2_gather_rows_into csg pssm pads q a b old.
 
-  (* ---------- SSE2 ---------- *)
+  (* ---------- SSE2 / NEON ---------- *)
 
   Definition zero128 : list N := repeat 0%N 16.
 
-  (* the broadcast of 16 bytes to four registers of 4 32-bit lanes *)
-  Definition sse2_widen (x : list N) : list (list N) :=
-    let hi := unpackhi_epi8 x zero128 in
-    let lo := unpacklo_epi8 x zero128 in
-    [as_epi32 (unpacklo_epi8 lo zero128); as_epi32 (unpackhi_epi8 lo zero128);
-     as_epi32 (unpacklo_epi8 hi zero128); as_epi32 (unpackhi_epi8 hi zero128)].
+  (* the broadcast of 16 bytes to the registers of 4 32-bit lanes compared for each accumulator *)
+  Definition lane4_widen (cs : lane4_consts) (x : list N) : list (list N) :=
+    map (fun p => as_epi32 (zip_path zero128 p x)) (l4_paths cs).
 
   (* _mm_and_ps(lut, _mm_castsi128_ps(_mm_cmpeq_epi32(x, sym))): an all-ones lane
      keeps the value, an all-zero lane gives the bit pattern 0 = +0.0 *)
@@ -223,52 +255,63 @@ Section Simd.
                      (map2 add_ps acc (map (fun x => and_cmpeq lut x (N.of_nat k)) xs))
     end.
 
-  Fixpoint sse2_inner (off : nat) (pssm : list (list T)) (sr : list (list nat)) (acc : list (list T))
-    : res (list (list T)) :=
-    match pssm with
-    | [] => Ok acc
-    | prow :: pr' =>
-        match sr with
-        | [] => Err 66
-        | xrow :: sr' =>
-            let x := map N.of_nat (firstn 16 (skipn off xrow)) in            (* _mm_load_si128 *)
-            sse2_inner off pr' sr' (sse2_symbols 0 prow (sse2_widen x) acc)
-        end
-    end.
+  Section Lane4.
+    Variable cs : lane4_consts.
 
-  Definition sse2_store (off : nat) (acc : list (list T)) (old : list T) : list T :=
-    fold_left (fun row ro => store_at (off + fst ro) (snd ro) row) (combine [0; 4; 8; 12] acc) old.
+    Fixpoint lane4_inner (off : nat) (pssm : list (list T)) (sr : list (list nat)) (acc : list (list T))
+      : res (list (list T)) :=
+      match pssm with
+      | [] => Ok acc
+      | prow :: pr' =>
+          match sr with
+          | [] => Err 66
+          | xrow :: sr' =>
+              let x := map N.of_nat (firstn 16 (skipn off xrow)) in     (* _mm_load_si128 / vld1q_u8 *)
+              lane4_inner off pr' sr' (sse2_symbols 0 prow (lane4_widen cs x) acc)
+          end
+      end.
 
-  Definition sse2_row (off : nat) (pssm : list (list T)) (m : list (list nat)) (i : nat) (old : list T)
-    : res (list T) :=
-    if length m <=? i then Panic 33
-    else rbind (sse2_inner off pssm (skipn i m) (repeat (repeat zero 4) 4))
-               (fun acc => Ok (sse2_store off acc old)).
+    (* _mm_stream_ps(rowptr.add(o_i), s_i) / vst1q_f32_x4(rowptr, s) *)
+    Definition lane4_store (off : nat) (acc : list (list T)) (old : list T) : list T :=
+      fold_left (fun row ro => store_at (off + fst ro) (snd ro) row) (combine (l4_store cs) acc) old.
 
-  (* for offset in (0..C/16).map(|i| i * 16) { for i in rows.clone() { ... } } *)
-  Definition sse2_kernel (C : nat) (pssm : list (list T)) (q : sseq) (a b : nat) (buf : list (list T))
-    : res (list (list T)) :=
-    match buf, pssm with
-    | [], _ | _, [] => if C / 16 =? 0 then Ok buf else Panic 34
-    | _, _ =>
-        foldM (fun buf' off => rows_update (sse2_row off pssm (sq_mat q)) 0 (seq a (b - a)) buf')
-              (map (fun i => i * 16) (seq 0 (C / 16))) buf
-    end.
+    Definition lane4_row (off : nat) (pssm : list (list T)) (m : list (list nat)) (i : nat) (old : list T)
+      : res (list T) :=
+      if length m <=? i then Panic 33
+      else rbind (lane4_inner off pssm (skipn i m) (repeat (repeat zero 4) (length (l4_paths cs))))
+                 (fun acc => Ok (lane4_store off acc old)).
 
-  Definition sse2_rows_into (C : nat) (pssm : list (list T)) (q : sseq) (a b : nat) (old : sscores T)
-    : res (sscores T) :=
-    simd_guard zero C (length pssm) q a b old (sse2_kernel C pssm q a b).
+    (* for offset in (0..C/16).map(|i| i * 16) { for i in rows.clone() { ... } } *)
+    Definition lane4_kernel (C : nat) (pssm : list (list T)) (q : sseq) (a b : nat) (buf : list (list T))
+      : res (list (list T)) :=
+      match buf, pssm with
+      | [], _ | _, [] => if C / 16 =? 0 then Ok buf else Panic 34
+      | _, _ =>
+          foldM (fun buf' off => rows_update (lane4_row off pssm (sq_mat q)) 0 (seq a (b - a)) buf')
+                (map (fun i => i * 16) (seq 0 (C / 16))) buf
+      end.
+  End Lane4.
+
+  (* Sse2::score_rows_into *)
+  Definition sse2_rows_into (cs : lane4_consts) (C : nat) (pssm : list (list T)) (q : sseq) (a b : nat)
+             (old : sscores T) : res (sscores T) :=
+    simd_guard zero C (length pssm) q a b old (lane4_kernel cs C pssm q a b).
+
+  (* Neon::score_f32_rows_into *)
+  Definition neon_rows_into (cs : lane4_consts) (C : nat) (pssm : list (list T)) (q : sseq) (a b : nat)
+             (old : sscores T) : res (sscores T) :=
+    neon_guard zero C (length pssm) q a b old (lane4_kernel cs C pssm q a b).
 
   (* ---------- dispatcher ---------- *)
 
   (* the table `match self.backend` of impl Score<f32, ..> for Pipeline<A, Dispatch>,
      re-extracted from dispatch.rs by the translator *)
-  Definition dispatch_rows_into (table : arm -> kernel_id) (csp csg : avx2_consts) (K : nat)
+  Definition dispatch_rows_into (table : arm -> kernel_id) (csp csg : avx2_consts) (cs2 : lane4_consts) (K : nat)
              (pssm : list (list T)) (pads : nat -> list T) (ar : arm) (q : sseq) (a b : nat) (old : sscores T)
     : res (sscores T) :=
     match table ar with
     | KAvx2 => avx2_rows_into csp csg K pssm pads q a b old
-    | KSse2 => sse2_rows_into 32 pssm q a b old
+    | KSse2 => sse2_rows_into cs2 32 pssm q a b old
     | KGeneric => generic_rows_into add zero 32 pssm q a b old
     end.
 
@@ -329,4 +372,27 @@ Definition avx2_layout_ok (cs : avx2_consts) : bool :=
                  negb (N.testbit imm 3) && negb (N.testbit imm 7) end) (ac_perm cs) &&
       (length (ac_perm cs) =? length (ac_store cs)) &&
       list_nat_eqb (avx2_final_cols cs kss) (seq 0 32)
+  end.
+
+(* ---------- data-independent part of the SSE2 / NEON lane bookkeeping ---------- *)
+
+(* the columns (relative to the block of 16) held by the 4 lanes of each accumulator *)
+Definition lane4_cols (cs : lane4_consts) : option (list (list nat)) :=
+  all_some (map (fun p => epi32_sel (zip_path (repeat None 16) p (map Some (seq 0 16)))) (l4_paths cs)).
+
+(* the column held by each cell of a block of 16 after the stores, starting from markers 16.. *)
+Definition lane4_final_cols (cs : lane4_consts) (kss : list (list nat)) : list nat :=
+  fold_left (fun row ro => store_at (fst ro) (snd ro) row) (combine (l4_store cs) kss) (seq 16 16).
+
+(* the reflection check: every path is a zero-extending widening of 4 of the 16 bytes, every
+   store stays inside the block, and after the stores cell c of the block holds the accumulator
+   lane that was fed with column c *)
+Definition lane4_layout_ok (cs : lane4_consts) : bool :=
+  match lane4_cols cs with
+  | None => false
+  | Some kss =>
+      forallb (fun ks => (length ks =? 4) && forallb (fun k => k <? 16) ks) kss &&
+      forallb (fun o => o + 4 <=? 16) (l4_store cs) &&
+      (length kss =? length (l4_store cs)) &&
+      list_nat_eqb (lane4_final_cols cs kss) (seq 0 16)
   end.
